@@ -2235,27 +2235,65 @@ func rArgsOnlyNonEmpty(id string) func(w *World, r *Report) {
 			if !ok || fieldOfAddr(fa).Name() != "Args" {
 				return
 			}
-			els, _, _ := elementsOf(st.Val, map[ssa.Value]bool{})
-			if len(els) != 1 {
-				return
+			// the list kept in a variable first (`nil` where nothing is attached, the one-element list elsewhere):
+			// every edge that carries a list is judged where the list was built
+			type site struct {
+				e ssa.Value
+				b *ssa.BasicBlock
 			}
-			e := els[0]
-			if bo, isCat := e.(*ssa.BinOp); isCat && bo.Op == token.ADD {
-				return // the single-dash value (rest of the runes + attached text): guarded by lengths, see R07.5
+			var sites []site
+			if phi, isPhi := st.Val.(*ssa.Phi); isPhi {
+				for i, ev := range phi.Edges {
+					if isNilConst(ev) {
+						continue
+					}
+					els, _, _ := elementsOf(ev, map[ssa.Value]bool{})
+					if len(els) != 1 {
+						return
+					}
+					sites = append(sites, site{els[0], phi.Block().Preds[i]})
+				}
+				if len(sites) == 0 {
+					return
+				}
+			} else {
+				els, _, _ := elementsOf(st.Val, map[ssa.Value]bool{})
+				if len(els) != 1 {
+					return
+				}
+				sites = append(sites, site{els[0], st.Block()})
+			}
+			for _, sx := range sites {
+				if bo, isCat := sx.e.(*ssa.BinOp); isCat && bo.Op == token.ADD {
+					return // the single-dash value (rest of the runes + attached text): guarded by lengths, see R07.5
+				}
 			}
 			n++
-			good := false
-			for _, f := range factsAt(st.Block()) {
-				if f.Op == token.NEQ && f.Y != nil {
-					if s, ok := constString(f.Y); ok && s == "" && (f.X == e || sameLeaves(f.X, e)) {
-						good = true
+			good := true
+			for _, sx := range sites {
+				e := sx.e
+				goodSite := false
+				for _, f := range factsAt(sx.b) {
+					if f.Op == token.NEQ && f.Y != nil {
+						if s, ok := constString(f.Y); ok && s == "" && (f.X == e || sameLeaves(f.X, e)) {
+							goodSite = true
+						}
+					}
+					// len(text) > 0 / != 0
+					if c, ok := lenOf(f.X); ok && f.Y != nil && (c == e || sameLeaves(c, e)) {
+						if k, ok := constInt(f.Y); ok && ((f.Op == token.GTR && k == 0) || (f.Op == token.NEQ && k == 0) || (f.Op == token.GEQ && k == 1)) {
+							goodSite = true
+						}
 					}
 				}
-				// len(text) > 0 / != 0
-				if c, ok := lenOf(f.X); ok && f.Y != nil && (c == e || sameLeaves(c, e)) {
-					if k, ok := constInt(f.Y); ok && ((f.Op == token.GTR && k == 0) || (f.Op == token.NEQ && k == 0) || (f.Op == token.GEQ && k == 1)) {
-						good = true
+				// the text is rest[k:] and len(rest) > k is established: it cannot be empty
+				if sl, isSl := e.(*ssa.Slice); isSl && sl.High == nil && !goodSite {
+					if k, isC := constInt(sl.Low); isC && k >= 0 && minLenAt(sx.b, sl.X) >= k+1 {
+						goodSite = true
 					}
+				}
+				if !goodSite {
+					good = false
 				}
 			}
 			ru.Check(good, "Args/non-empty", w.IPos(st), "stored only when the text is not empty", "a pair's Args is stored without `text != \"\"` on the text that is stored: `--opt=` attaches an empty value (the option counts it as given, a following value is no longer taken)")
